@@ -6,7 +6,7 @@ import numpy as np
 
 from harness import common, nsutil
 
-GEN = ["logsumexp", "effective_sample_size", "compute_weights", "scaled_weights", "rejection_accept"]
+GEN = ["logsumexp", "effective_sample_size", "compute_weights", "scaled_weights", "rejection_accept", "xlogsumexp", "xeffective_sample_size", "xcompute_weights"]
 
 
 def gen_population(rng, kind, n):
@@ -83,6 +83,9 @@ def run(ctx):
     irall = json.loads(irfile.read_text())["ir"] if irfile.exists() else {}
     import translate
     ev = translate.make_evaluator(irall)
+    irxfile = common.COQ / "Gen" / "kernelsx_ir.json"
+    irx = json.loads(irxfile.read_text())["ir"] if irxfile.exists() else {}
+    evx = translate.make_evaluator(irx)
 
     ctx.rule = ("populations (ll,lp,lq) from one random.Random(VERIF_SEED): kinds moderate/large(|log w| up to 1e5)/ties/neginf "
                 "x N x {numpy,torch,jax} x {float32,float64}; each case = one Samples object on which (a) the mpmath evaluation "
@@ -90,7 +93,7 @@ def run(ctx):
                 "compared with the implementation; distinct = distinct (kind,N,ns,width,first values); non-trivial = N>=2 and weights not all equal")
     ctx.trust("tools/translate.py (Python-ast -> IR -> Gallina printer) and its mpmath IR evaluator; validated on every run by the numeric differential below",
               "theorems are over exact reals: binary32/64 rounding inside exp/log/sum is outside the model (the differential uses tolerances ~1e3 eps)",
-              "rows with log-weight -inf are covered by the implementation search only (no theorem over extended reals yet)")
+              "rows with log-weight -inf: theorems over XR (reals + NaN/-inf/+inf with the IEEE rules, Lib/XR.v) about the same functions translated a second time (Gen/KernelsX.v), tied by the same mpmath differential on the neginf populations")
     NS = nsutil.namespaces()
     sizes = [2, 3, 7, 40] + ([400] if ctx.quick else [400, 2000, 5000])
     reps = 2 if ctx.quick else 6
@@ -187,7 +190,19 @@ def run(ctx):
                             if (i in kept_idx) != (u[i] < ratio):
                                 ctx.violation(f"rejection:{kind}:{nsname}", f"row {i}: u={u[i]} w/max={ratio} kept={i in kept_idx}", full)
                                 break
-                        # ---------------- TIE: the translator's IR (what the theorems talk about) vs the implementation
+                        # ---------------- TIE over the extended reals (rows equal to -inf): Gen/KernelsX.v vs the implementation
+                        if kind == "neginf" and irx:
+                            xs = list(range(n))
+                            ninf = lambda vs: [mp.mpf("-inf") if v == -math.inf else mp.mpf(float(v)) for v in vs]
+                            A = dict(x=xs, ll=ninf(ll), lp=ninf(lp), lq=ninf(lq))
+                            try:
+                                g_lw = evx("xcompute_weights_log_w", **A)
+                                tie("xcompute_weights_log_w", all((a == b) if (mp.isinf(a) or math.isinf(b)) else close(a, b, 0, 4 * eps * M) for a, b in zip(g_lw, lw_impl)), str(case))
+                                B = dict(x=xs, ll=lw_mp, lp=[mp.mpf(0)] * n, lq=[mp.mpf(0)] * n)
+                                tie("xcompute_weights_log_evidence", close(evx("xcompute_weights_log_evidence", **B), le_impl, rel, 16 * eps * M), str(case))
+                                tie("xcompute_weights_ess", close(evx("xcompute_weights_ess", **B), ess_impl, rel), str(case))
+                            except Exception as e:
+                                tie("xcompute_weights_log_w", False, f"IR evaluation raised {e!r} on {case}")
                         if kind in ("moderate", "large", "ties") and irall:
                             tie_cases += 1
                             xs = list(range(n))
